@@ -257,9 +257,14 @@ def enumerate_whats(src):
                         yield ('slice', [list(x) for x in path], vf[0], i, j)
 
 
+_N_SHARED = 46  # case ids are positional: the first 46 shared programs, then C06's, then whatever either list gained later
+
+
 def progs(tier):
     from .c06 import PROGS
-    return list(PROGRAMS) + [p for p in PROGS if p not in PROGRAMS]
+    base = list(PROGRAMS[:_N_SHARED])
+    base += [p for p in PROGS if p not in base and p not in PROGRAMS[_N_SHARED:]]
+    return base + [p for p in PROGRAMS[_N_SHARED:] if p not in base]
 
 
 def shards(tier):
